@@ -703,7 +703,7 @@ def check_case(case, col, quick, rng, full_cache=True):
                 return
             compare(work, ref_cfg, ref, cfg, col)
         check_cache_states(work, ref_cfg, ref, col, quick, full_cache)
-        check_reruns(work, col, quick)
+        check_reruns(work, col, quick, lean=not full_cache)
         if col.full:
             return
         # the same input assembly as FASTA, AGP or TPF: same output assemblies row for row
@@ -743,14 +743,14 @@ def other_fixed(case):
     return "multi" if case["name"] != "multi" else "cut"
 
 
-def check_reruns(work, col, quick):
+def check_reruns(work, col, quick, lean=False):
     """
     The same command again with the same --output (default --clobber), after earlier runs on the same / on other
     inputs, or with unrelated files under the output names: everything it writes must be what it writes into an
     empty directory.
     """
     other = other_fixed(work.case)
-    for out_fmt in ("fa", "agp") if quick else ("fa", "agp", "tpf"):
+    for out_fmt in ("fa",) if lean else ("fa", "agp") if quick else ("fa", "agp", "tpf"):
         ref_cfg = {"via": "inprocess", "cwd": "root", "cache": "warm", "out_fmt": out_fmt}
         ref, err = work.run(ref_cfg)
         col.case((work.case["name"], "rerun-ref", out_fmt))
@@ -759,7 +759,7 @@ def check_reruns(work, col, quick):
         names = sorted(ref)
         states = [{"prior": ["same"]}, {"prior": [other]}, {"junk": {"kind": "long", "names": names}}, {"junk": {"kind": "short", "names": names}}]
         runs = []
-        if out_fmt == "fa":
+        if out_fmt == "fa" and not lean:
             runs.append({"via": "subprocess", "hashseed": 1, "cwd": "root", "cache": "warm", "outdir": {"prior": ["same"]}})
             states += [{"prior": [other, "same"]}, {"prior": ["same", "same"]}]
         if not quick:
@@ -782,9 +782,10 @@ CACHE_PAIRS_QUICK = [
 def check_cache_states(work, ref_cfg, ref, col, quick, full):
     """
     Every state of the two cache files (.fai, .agp) next to the FASTA x the run that finds them: the outputs must be
-    those of the reference run, which found no cache.  `full`: the whole 6 x 6 product, else CACHE_PAIRS_QUICK.
+    those of the reference run, which found no cache.  Thorough: the whole 6 x 6 product; quick: CACHE_PAIRS_QUICK
+    (`full`) or its first 8.
     """
-    pairs = list(itertools.product(CACHE_STATES, repeat=2)) if full else CACHE_PAIRS_QUICK
+    pairs = list(itertools.product(CACHE_STATES, repeat=2)) if not quick else CACHE_PAIRS_QUICK if full else CACHE_PAIRS_QUICK[:8]
     try:
         work.cache_content("own"), work.cache_content("other")
     except Exception as e:  # noqa: BLE001
@@ -979,7 +980,7 @@ def run(tier, seed, **opts):
     for i, case in enumerate(cases):
         if col.full:
             break
-        check_case(case, col, quick, rng, full_cache=not quick or i < 2)
+        check_case(case, col, quick, rng, full_cache=not quick or i < 1)
     if not col.full:
         check_orders(cases[:3], col, quick)
     for case in cases[:2] if quick else cases[:6]:
@@ -1002,8 +1003,8 @@ def run(tier, seed, **opts):
     return col.result(
         bounds=f"{len(cases)} generated cases x (4" + ("" if quick else "+6") + " subprocess runs, 2 in-process runs, "
         + ("6" if quick else "11") + " buffer sizes, up to 4 input/output format pairs, "
-        + ("36 (first two cases) or 14 cache states + 2 as subprocess for FASTA output, " if quick else "36 cache states x FASTA / AGP / TPF output + 8 as subprocess, ")
-        + ("9 + 4 re-runs into a used output directory for FASTA / AGP output); 3 cases in " if quick else "up to 11 + 3 re-runs into a used output directory for each of FASTA / AGP / TPF output); 3 cases in ")
+        + ("14 cache states + 2 as subprocess (first case) or 8 cache states, " if quick else "36 cache states x FASTA / AGP / TPF output + 8 as subprocess, ")
+        + ("7 + 4 (first case) or 4 re-runs into a used output directory); 3 cases in " if quick else "up to 11 + 3 re-runs into a used output directory for each of FASTA / AGP / TPF output); 3 cases in ")
         + ("6" if quick else "6") + f" orders in one process; asm-format 3-4 conversions x 4 runs; {n_spec} specimens x 2 hash seeds; "
         f"{len(ties)} tie maps x (1 reference + {n_pre} pre-used fresh interpreters + {reps} in-process runs in shuffled rounds with churn / gc modes)",
         exhaustive=False,
